@@ -48,6 +48,8 @@ func runC11(c *Ctx) {
 	c.ruleAckAtMostOnce("R11.3")
 	c.ruleStepNeverAcks("R11.4")
 	c.rulePersistentAccept("R11.5")
+	c.ruleDistributedBinders("R11.5")
+	c.ruleCloseSiblings("R11.6", false)
 }
 
 func (c *Ctx) ruleWhoAcknowledges(rule string) {
@@ -108,6 +110,33 @@ func (c *Ctx) ruleRightReceipt(rule string) {
 					}
 				}
 			}
+		}
+		return true
+	})
+	// every queue that can issue receipts is dequeued with one: the branch calling DequeueWithAckId is selected by
+	// exactly the interface that declares it (a narrower case type sends other acknowledging adapters to plain Dequeue)
+	ast.Inspect(R.Step.Body, func(n ast.Node) bool {
+		ts, ok := n.(*ast.TypeSwitchStmt)
+		if !ok {
+			return true
+		}
+		for _, cc := range ts.Body.List {
+			clause := cc.(*ast.CaseClause)
+			has := false
+			for _, s := range clause.Body {
+				ast.Inspect(s, func(m ast.Node) bool {
+					if call, ok := m.(*ast.CallExpr); ok && resolveCallee(info, call).Key == kDequeueAck {
+						has = true
+					}
+					return true
+				})
+			}
+			if !has {
+				continue
+			}
+			good := len(clause.List) == 1 && qualTypeName(info.TypeOf(clause.List[0])) == modPath+".IAcknowledgeable"
+			c.Rep.check(good, rule, R.Step.Short(), "receipt branch selected by a narrower type than IAcknowledgeable", c.P.pos(clause), "case IAcknowledgeable → DequeueWithAckId",
+				"the branch that dequeues with a receipt is not selected by the IAcknowledgeable interface itself: acknowledging adapters that do not match the narrower type (e.g. the priority variants) are read with plain Dequeue, without a receipt, and their in-flight jobs are lost on a crash")
 		}
 		return true
 	})
